@@ -181,6 +181,12 @@ fn main() {
         let maps = TorrentMaps::default();
         let mut config = Config::default();
         config.protocol.max_response_peers = *meta.pick(&[1usize, 2, 4, 50]);
+        // a quarter of the rounds: torrent 0 is on a Deny-mode access list (installed after the set-up, as after a
+        // reload), so every cleaning pass removes it whatever its deadlines while announces and scrapes of it go on
+        let deny_round = meta.chance(1, 4);
+        if deny_round {
+            config.access_list.mode = aquatic_common::access_list::AccessListMode::Deny;
+        }
         let (tx, rx) = unbounded::<StatisticsMessage>();
         let stats: aquatic_udp::common::CachePaddedArc<IpVersionStatistics<SwarmWorkerStatistics>> = Default::default();
         let access = Arc::new(AccessListArcSwap::default());
@@ -197,6 +203,12 @@ fn main() {
                 maps.announce(&config, &tx, &mut rng0, &req, canonical_src(key.ip, 1), ValidUntil::new_raw(SecondsSinceServerStart::new_raw(deadline)));
                 init[t].insert(key, (seeder, deadline as u64));
             }
+        }
+        if deny_round {
+            let mut l = aquatic_common::access_list::AccessList::default();
+            l.insert_from_line(&vcore::hex(&hash_of(round_no, 0, first_bytes[0]))).unwrap();
+            access.store(Arc::new(l));
+            report.count("deny_rounds");
         }
         // programs
         let mut programs: Vec<Vec<SOp>> = Vec::new();
@@ -298,7 +310,14 @@ fn main() {
                             }
                         }
                     }
-                    SOp::Clean { now } => ops.push(LOp { actor: r.actor, call: r.call, ret: r.ret, kind: LKind::Expire { now: *now as u64 } }),
+                    SOp::Clean { now } => {
+                        ops.push(LOp { actor: r.actor, call: r.call, ret: r.ret, kind: LKind::Expire { now: *now as u64 } });
+                        if deny_round && t == 0 {
+                            // the pass also removes the forbidden torrent: a second atomic step of the same pass (phase 2),
+                            // concurrent with the expiry step as far as the checker is concerned (see `strict` below)
+                            ops.push(LOp { actor: r.actor, call: r.call, ret: r.ret, kind: LKind::Expire { now: u64::MAX } });
+                        }
+                    }
                     _ => {}
                 }
             }
@@ -308,6 +327,13 @@ fn main() {
             ops.push(LOp { actor: 999, call: end + 2, ret: end + 3, kind: LKind::Announce { key: PeerKey { ip: ip_of(v6, 251), port: 9999 }, stopped: false, seeder: false, deadline: 1_000_000, seeders: fin.0 as usize, leechers: fin.1 as usize, peers: members.iter().copied().collect(), limit: 100_000 } });
             report.eval();
             let out = lin::check(&init[t], &ops, None, 3_000_000);
+            if deny_round && t == 0 && matches!(out.verdict, Verdict::Linearizable) {
+                // would the history also be explained by passes that expire and remove in ONE step?
+                let strict: Vec<LOp> = ops.iter().filter(|o| !matches!(o.kind, LKind::Expire { now } if now != u64::MAX) || o.actor == 999).cloned().collect();
+                if matches!(lin::check(&init[t], &strict, None, 3_000_000).verdict, Verdict::NotLinearizable) {
+                    report.count("observation.forbidden_torrent_cleaned_in_two_visible_steps(expiry,then_removal)");
+                }
+            }
             // overlap pattern for "distinct" accounting
             let mut evs: Vec<(u64, u8, usize)> = Vec::new();
             for o in ops.iter().filter(|o| o.actor != 999) {
@@ -351,6 +377,7 @@ fn main() {
         }
     }
     done.store(true, Ordering::SeqCst);
+    check_lock_order(&mut report, "udp_stress");
     report.add("rounds", round_no);
     report.add("operations", ops_total);
     report.add("checker_budget_exhausted", budget_exhausted);
